@@ -150,3 +150,36 @@ Theorem C11_legacy_refuted :
   nqueries (snd (eval_flag (fun _ => false) (fun _ _ => false) no_opts store11 prov11 (CSingle user_a) 4 []
                    (mkbf (s "f0") [mkprereq (s "f1") 1]) st0)) = 1%nat.
 Proof. split; vm_compute; reflexivity. Qed.
+
+(* ---- C18 (695836d, 58ac7ba, d4456af): the original RFC 3339 scanner stopped at 'Z' and ignored what followed, treated a
+   NUL / non-ASCII byte after the offset minutes as the end of the string, and accepted every day 01..31 in every month
+   (time.Date then normalises February 31 into March). ---- *)
+Definition parse_zone_legacy (term1 : term) (r8 : str) : option Z :=
+  if term_is term1 43%N || term_is term1 45%N then
+    match num_field colon_t false 2 2 0 99 r8 with None => None | Some (oh, _, r9) =>
+    match num_field none_t true 2 2 0 59 r9 with None => None | Some (om, _, _) =>
+      let secs := (om + oh * 60) * 60 in Some (if term_is term1 43%N then - secs else secs)
+    end end
+  else Some 0.
+Definition parse_rfc3339_legacy (x : str) : option Z :=
+  match num_field hyphen_t false 4 4 0 9999 x with None => None | Some (year, _, r1) =>
+  match num_field hyphen_t false 2 2 1 12 r1 with None => None | Some (month, _, r2) =>
+  match num_field t_t false 2 2 1 31 r2 with None => None | Some (day, _, r3) =>
+  match num_field colon_t false 1 2 0 23 r3 with None => None | Some (hour, _, r4) =>
+  match num_field colon_t false 2 2 0 59 r4 with None => None | Some (minute, _, r5) =>
+  match num_field end_sec_t false 2 2 0 60 r5 with None => None | Some (second, term0, r6) =>
+  match parse_frac term0 r6 with None => None | Some (nanos, term1, r8) =>
+  match parse_zone_legacy term1 r8 with None => None | Some tz =>
+    Some ((days_from_civil year month day * 86400 + hour * 3600 + minute * 60 + second + tz) * 1000000000 + nanos)
+  end end end end end end end end.
+
+(* "2020-01-01T00:00:00Zjunk", "2020-01-01T00:00:00+01:00" ++ [0xC3; 0xA9] and "2020-02-31T00:00:00Z" (read as March 2) *)
+Definition ts_trailing : str := s "2020-01-01T00:00:00Zjunk".
+Definition ts_nonascii : str := s "2020-01-01T00:00:00+01:00" ++ [195%N; 169%N].
+Definition ts_feb31 : str := s "2020-02-31T00:00:00Z".
+Theorem C18_scanner_legacy_refuted :
+  (parse_rfc3339_legacy ts_trailing = parse_rfc3339 (s "2020-01-01T00:00:00Z") /\ parse_rfc3339 ts_trailing = None) /\
+  (parse_rfc3339_legacy ts_nonascii = parse_rfc3339 (s "2020-01-01T00:00:00+01:00") /\ parse_rfc3339 ts_nonascii = None) /\
+  (parse_rfc3339_legacy ts_feb31 = parse_rfc3339 (s "2020-03-02T00:00:00Z") /\ parse_rfc3339 ts_feb31 = None) /\
+  parse_rfc3339 (s "2020-01-01T00:00:00Z") <> None.
+Proof. vm_compute. repeat split; try reflexivity. discriminate. Qed.
